@@ -336,10 +336,10 @@ LAYOUTS_844 = [(1, 1, 1), (2, 1, 1), (2, 2, 1), (4, 2, 2), (8, 4, 4), (1, 4, 2)]
 
 
 def step_line(cfg):
-    return "%d %d %d %d %d %d %d %d %d %d %s %d %s %d %d %s %s %s %s %d\n" % (
+    return "%d %d %d %d %d %d %d %d %d %d %s %d %s %d %d %s %s %s %s %d %d\n" % (
         cfg["N"][0], cfg["N"][1], cfg["N"][2], cfg["lay"][0], cfg["lay"][1], cfg["lay"][2], cfg["per"][0], cfg["per"][1], cfg["per"][2],
         cfg["bk"], hx(cfg["gamma"]), cfg["nsteps"], hx(cfg["cfl"]), cfg["init"], cfg["seed"], hx(cfg["mach"]),
-        hx(cfg["h"][0]), hx(cfg["h"][1]), hx(cfg["h"][2]), cfg.get("dump", 0))
+        hx(cfg["h"][0]), hx(cfg["h"][1]), hx(cfg["h"][2]), cfg.get("dump", 0), cfg.get("order", 0))
 
 
 def step_run(d, cfgs):
